@@ -152,9 +152,7 @@ void harness(void)
 	{
 		char exp[300];
 		snprintf(exp, sizeof(exp), "top\n%sbot\n", want);
-		symx_assert(!strcmp(got, exp), g && (strstr(tab[t], "\\<") || strstr(tab[t], "\\>")) ?
-			"the line equals the reference substitution of the original line (word boundary with g)" :
-			"the line equals the reference substitution of the original line");
+		symx_assert(!strcmp(got, exp), "the line equals the reference substitution of the original line");
 	}
 	symx_assert(ref_valid((unsigned char *) got, strlen(got)), "valid UTF-8 stays valid UTF-8");
 	free(got);
